@@ -235,12 +235,15 @@ def compile_cases(ctx):
     cases.append({"seed": 343637, "feat": 498587, "nbody": 4, "nmesh": 0, "ntex": 2, "flags": 42, "reps": 2})
     cases.append({"seed": 11, "feat": FEAT_ALL, "nbody": 5, "nmesh": 0, "ntex": 1, "flags": 64 | 16, "reps": 1})   # several mocap bodies, delayed actuators
     cases.append({"seed": 3, "feat": 9, "nbody": 3, "nmesh": 0, "ntex": 0, "flags": 192, "reps": 1})   # extras rig + mocap bodies, tiny tree
+    cases.append({"seed": 7, "feat": 9, "nbody": 3, "nmesh": 0, "ntex": 0, "flags": 256, "reps": 1})   # frames rig on a tiny tree
     for i in range(10 if q else 50):
         feat = 0
         for b in (1, 2, 4, 8, 16, 32, 64, 128, 256, 512, 1024, 2048, 4096, 8192, 16384, 32768, 65536, 131072, 262144):
             if rng.random() < 0.6:
                 feat |= b
         flags = rng.choice((0, 2, 4, 6, 16, 18, 20, 22, 8, 10))
+        if i % 3 != 2:
+            flags |= 256   # frames rig: nested frames, alternative orientations, elements attached to inner frames
         if i % 4 != 3:
             flags |= 128   # extras rig: spatial tendons (site / sphere / cylinder / pulley wraps) + pair, exclude, numeric, text, tuple, camera, light
         if i % 3 != 1:
@@ -462,6 +465,13 @@ def run(ctx):
                     ctx.violation("impl_violation", c, expected="mj_saveModel bytes identical to the first compilation of the spec",
                                   observed=l, theorem="C33_schedule_independent / C33_copyModel" if what != "twice" else "C33 (determinism)",
                                   signature={"site": site, "what": "accept-reject-differs" if "compile-failed" in l else "model-bytes-differ"})
+            elif t[0] == "FRM":
+                ncmp += 1
+                if t[2] != "1":
+                    ctx.violation("impl_violation", c, expected="sites/geoms attached to nested frames sit at the composition of the frame poses written in the spec (recomputed by the driver), on every compile",
+                                  observed=l, theorem="C33_frame_compile_idempotent (a later compile keeps the accumulated parent transform)",
+                                  signature={"site": {"first": "mj_compile", "twice": "mj_compile", "copyspec": "mj_copySpec", "recompile": "mj_recompile"}.get(t[1], t[1]),
+                                             "what": "frame-placement-wrong"})
             elif t[0] == "CNT":
                 ncmp += 1
                 if t[2] != "1":
